@@ -8,6 +8,14 @@ The translator accepts a small, fixed Rust subset (see DESIGN.md §3.2) and FAIL
 `<<` on u64 is `% 2^64`; a narrowing `as uN` is `% 2^N`; `panic!` makes the function return
 `Option`; `debug_assert!` is dropped (recorded as a comment).  `#[cfg(..)]` attributes are
 evaluated against the crate's default feature set read from Cargo.toml.
+Key types (src/filedb/dbmap/kt_db*.rs): a key newtype `DbX(Vec<u8>)` is its byte list;
+`cmp_u8` and the `From` impls between integers and keys are selected by their `impl` header
+(`find_impl`) and their signature is checked against the configured one; byte slices compare
+with `cmpBytes`, `u64`s with `compare`; `vu64::decode(..).unwrap()` is the panic path (`none`);
+`i64` is `Int` and only occurs in `to_le_bytes` / `from_le_bytes` (two's complement);
+`copy_from_slice` into/from a range `x[..n]` only in shapes whose length and bounds
+conditions are evident from the enclosing `if` (see `Emit.copy_from_slice`).
+When the translation fails, Funcs.lean is replaced by a file that does not build.
 Python 3 standard library only.
 """
 import re
@@ -334,6 +342,15 @@ class P:
                     e = ("field", e, name)
             elif self.at("["):
                 self.next()
+                if self.at(".."):
+                    # `x[..hi]`: the prefix of a slice (only meaningful to `copy_from_slice`, see Emit)
+                    self.next()
+                    if self.at("]"):
+                        fail(self.where + ": full-range index `x[..]` is outside the supported subset")
+                    hi = self.expr()
+                    self.expect("]")
+                    e = ("sliceto", e, hi)
+                    continue
                 idx = self.expr()
                 self.expect("]")
                 e = ("index", e, idx)
@@ -536,6 +553,41 @@ def find_item(src, kind, name, where):
     fail("bad kind")
 
 
+def find_impl(src, header, where):
+    """returns the text of the one block `impl <header> { … }` (e.g. header `From<u64> for DbU64`).
+    `src` must be comment-stripped (the key-type files carry commented-out impls of the same
+    shape).  The header is matched token by token, so `From<u64>` does not match `From<&u64>`
+    and `for u64` does not match `for DbU64`; generic impls (`impl<…>`) are never selected."""
+    pat = r"\bimpl\s+" + r"\s*".join(re.escape(v) for _k, v in tokenize(header)) + r"\s*\{"
+    # a word boundary is needed between adjacent identifier tokens (`for DbU64`)
+    pat = re.sub(r"(?<=[A-Za-z0-9_])\\s\*(?=[A-Za-z0-9_])", r"\\s+", pat)
+    ms = list(re.finditer(pat, src))
+    if not ms:
+        fail("%s: `impl %s` not found" % (where, header))
+    if len(ms) > 1:
+        fail("%s: `impl %s` occurs %d times" % (where, header, len(ms)))
+    j = ms[0].end() - 1
+    depth = 0
+    k = j
+    while k < len(src):
+        c = src[k]
+        if c == "{":
+            depth += 1
+        elif c == "}":
+            depth -= 1
+            if depth == 0:
+                return src[j + 1:k]
+        k += 1
+    fail("%s: `impl %s`: unterminated block" % (where, header))
+
+
+def fn_signature(item):
+    """the tokens between the function's name and its body:
+    `( & self , other : & [ u8 ] ) -> std :: cmp :: Ordering` (compared token-wise)"""
+    m = re.match(r"fn\s+[A-Za-z0-9_]+\s*", item)
+    return [v for _k, v in tokenize(item[m.end():item.index("{")])]
+
+
 def find_top_eq(src, start):
     depth = 0
     j = start
@@ -558,6 +610,8 @@ def strip_comments(src):
 
 # ----------------------------------------------------------------------------- emission
 WIDTH = {"u8": 8, "u16": 16, "u32": 32, "u64": 64, "usize": 64}
+BYTES = "[u8]"                                   # type tag of byte sequences (`&[u8]`, `Vec<u8>`): `List Nat`
+BYTES_IDENTITY = ("as_slice", "as_ref", "to_vec")   # methods that are the identity on `List Nat`
 
 
 class Emit:
@@ -575,6 +629,10 @@ class Emit:
         self.self_arrays = self_arrays
         self.partial = False
         self.notes = []
+        self.newtypes = set()         # tuple-struct newtypes over Vec<u8> whose constructor is erased
+        self.static_len = {}          # local array variable -> its fixed length (`let mut a = [0u8; 8]`)
+        self.len_alias = {}           # immutable local `n` bound by `let n = S.len()` -> Lean text of S
+        self.facts = []               # ("lt"|"ge", var, K) known from the enclosing `if var < K` branches
 
     # -- canonical text of an expression for substitution lookup
     def text(self, e):
@@ -608,12 +666,24 @@ class Emit:
                 return "usize"
             if e[2] in ("as_value", "into", "next_power_of_two", "wrapping_add"):
                 return self.ty(e[1])
+            if e[2] in BYTES_IDENTITY and not e[3] and self.ty(e[1]) == BYTES:
+                return BYTES
+            if e[2] in ("to_le_bytes", "to_be_bytes") and not e[3] and self.ty(e[1]) in ("u64", "i64"):
+                return BYTES
         if k == "call":
             name = e[1][-1]
             if name == "new" and len(e[2]) == 1:
                 return self.ty(e[2][0])
             if "::".join(e[1]) == "vu64::encoded_len":
                 return "u8"
+            if "::".join(e[1]) == "vu64::encode":
+                return BYTES
+            if "::".join(e[1]) == "u64::from_le_bytes":
+                return "u64"
+            if "::".join(e[1]) == "i64::from_le_bytes":
+                return "i64"
+            if len(e[1]) == 1 and name in self.newtypes and len(e[2]) == 1:
+                return self.ty(e[2][0])
         if k == "bin":
             a, b = self.ty(e[2]), self.ty(e[3])
             if e[1] in ("==", "!=", "<", ">", "<=", ">=", "&&", "||"):
@@ -656,6 +726,8 @@ class Emit:
             dst = e[2]
             if dst not in WIDTH:
                 fail("%s: unsupported cast to %s" % (self.where, dst))
+            if src == "i64" or src == BYTES:
+                fail("%s: unsupported cast from %s" % (self.where, src))
             if src in WIDTH and WIDTH[src] <= WIDTH[dst]:
                 return inner
             if e[1][0] == "num" and e[1][1] < 2 ** WIDTH[dst]:
@@ -664,6 +736,8 @@ class Emit:
         if k == "bin":
             op = e[1]
             a, b = self.ex(e[2]), self.ex(e[3])
+            if "i64" in (self.ty(e[2]), self.ty(e[3])):
+                fail("%s: arithmetic/comparison on i64 (`%s`) is outside the supported subset" % (self.where, op))
             if op == "<<":
                 w = WIDTH.get(self.ty(e[2]) or "", None)
                 if w is None:
@@ -689,6 +763,35 @@ class Emit:
                 return "(chunksOf %s %s)" % (self.ex(args[0]), self.atom(recv))
             if name == "next_power_of_two":
                 return "(nextPowerOfTwo %s)" % self.ex(recv)
+            if name in BYTES_IDENTITY and not args:
+                # `.as_slice()` / `.as_ref()` / `.to_vec()` on a byte sequence: the same `List Nat`
+                if self.ty(recv) != BYTES:
+                    fail("%s: .%s() on something that is not known to be a byte sequence: %s"
+                         % (self.where, name, self.text(recv)))
+                return self.ex(recv)
+            if name in ("to_le_bytes", "to_be_bytes") and not args:
+                t = self.ty(recv)
+                if t == "u64":
+                    v = self.atom(recv)
+                elif t == "i64":
+                    # two's complement: the 64-bit pattern of an `Int` in [-2^63, 2^63)
+                    v = "(%s %% 2^64).toNat" % self.atom(recv)
+                else:
+                    fail("%s: .%s() on an operand that is not u64/i64: %s" % (self.where, name, self.text(recv)))
+                if name == "to_le_bytes":
+                    return "(Abyss.Vu64.leBytes %s 8)" % v
+                return "(beBytes %s 8)" % v
+            if name == "cmp" and len(args) == 1:
+                ta, tb = self.ty(recv), self.ty(args[0])
+                if ta == BYTES and tb == BYTES:
+                    return "(cmpBytes %s %s)" % (self.atom(recv), self.atom(args[0]))
+                if ta in WIDTH and ta == tb:
+                    return "(compare %s %s)" % (self.atom(recv), self.atom(args[0]))
+                fail("%s: `.cmp()` on operands of unsupported or different types (%s, %s): %s"
+                     % (self.where, ta, tb, self.text(e)))
+            if name == "unwrap":
+                fail("%s: `.unwrap()` is only supported on `vu64::decode(..)` in a `let` or in tail position: %s"
+                     % (self.where, self.text(e)))
             if name == "wrapping_add":
                 w = WIDTH.get(self.ty(recv) or "", None)
                 if w is None:
@@ -705,6 +808,26 @@ class Emit:
                 return "(Abyss.Vu64.encodedLen %s)" % self.ex(e[2][0])
             if name == "u64::from_be_bytes" and len(e[2]) == 1:
                 return "(beVal %s)" % self.atom(e[2][0])
+            if name in ("u64::from_le_bytes", "i64::from_le_bytes") and len(e[2]) == 1:
+                a = e[2][0]
+                if not (a[0] == "path" and len(a[1]) == 1 and self.static_len.get(a[1][0]) == 8):
+                    fail("%s: %s of something that is not a local array of 8 bytes: %s"
+                         % (self.where, name, self.text(a)))
+                v = "(Abyss.Vu64.ofLeBytes %s)" % self.atom(a)
+                return v if name.startswith("u64") else "(toI64 %s)" % v
+            if name == "vu64::encode" and len(e[2]) == 1:
+                if self.ty(e[2][0]) != "u64":
+                    fail("%s: vu64::encode of an operand that is not u64: %s" % (self.where, self.text(e[2][0])))
+                return "(Abyss.Vu64.encode %s)" % self.atom(e[2][0])
+            if name == "vu64::decode":
+                fail("%s: `vu64::decode(..)` is only supported as `vu64::decode(..).unwrap()` in a `let` or in tail position"
+                     % self.where)
+            if len(e[1]) == 1 and name in self.newtypes and len(e[2]) == 1:
+                # tuple-struct newtype over Vec<u8>: constructor erased
+                if self.ty(e[2][0]) != BYTES:
+                    fail("%s: %s(..) of something that is not known to be a byte sequence: %s"
+                         % (self.where, name, self.text(e[2][0])))
+                return self.ex(e[2][0])
             if e[1][-1] in self.pure_fns and len(e[1]) == 1:
                 return "(%s %s)" % (self.pure_fns[e[1][-1]], " ".join(self.atom(a) for a in e[2]))
             if name in self.partial_fns or e[1][-1] in self.partial_fns:
@@ -718,6 +841,8 @@ class Emit:
             return "[" + ", ".join(self.ex(x) for x in e[1]) + "]"
         if k == "repeat":
             return "(List.replicate %s %s)" % (self.ex(e[2]), self.ex(e[1]))
+        if k == "sliceto":
+            fail("%s: range index `%s[..%s]` outside of `copy_from_slice`" % (self.where, self.text(e[1]), self.text(e[2])))
         if k == "block":
             return "(" + self.seq(e[1], e[2], wrap=False) + ")"
         if k == "if":
@@ -729,6 +854,76 @@ class Emit:
     def cond(self, e):
         s = self.ex(e)
         return s
+
+    def decode_unwrap(self, e):
+        """if `e` is `vu64::decode(X).unwrap()`: the Lean text of X, else None."""
+        if not (e[0] == "mcall" and e[2] == "unwrap" and not e[3]):
+            return None
+        c = e[1]
+        if not (c[0] == "call" and "::".join(c[1]) == "vu64::decode" and len(c[2]) == 1):
+            return None
+        if self.ty(c[2][0]) != BYTES:
+            fail("%s: vu64::decode of something that is not known to be a byte sequence: %s"
+                 % (self.where, self.text(c[2][0])))
+        return self.atom(c[2][0])
+
+    def cond_facts(self, c, positive):
+        """facts about local variables that hold in the then- (positive) / else-branch of `if c`"""
+        if c[0] == "bin" and c[1] == "<" and c[2][0] == "path" and len(c[2][1]) == 1 and c[3][0] == "num":
+            return [("lt" if positive else "ge", c[2][1][0], c[3][1])]
+        return []
+
+    def copy_from_slice(self, tgt, src):
+        """`tgt.copy_from_slice(src)`: (Lean variable, its new value).  `copy_from_slice` panics
+        unless both sides have the same length, and a range index panics when out of bounds; the
+        shapes accepted here are those where this is excluded syntactically, so no panic path
+        has to be modelled:
+          A. `a[..n].copy_from_slice(S)`, `a` a local array of fixed length L, `n` bound by
+             `let n = S.len()`, inside the then-branch of `if n < K` with K ≤ L:   a := S ++ a.drop n
+          B. `a.copy_from_slice(&S[..K])`, `a` a local array of fixed length K, inside a branch
+             where `m ≥ K'` is known for `let m = S.len()`, K ≤ K':               a := S.take K
+          C. `a.copy_from_slice(v)` for a plain variable `v` (as in MyHasher::write, where the
+             branch condition `len == 8` is what makes the lengths agree):          a := v
+        """
+        if tgt[0] == "sliceto":
+            base, hi = tgt[1], tgt[2]
+            if not (base[0] == "path" and len(base[1]) == 1 and base[1][0] in self.static_len):
+                fail("%s: copy_from_slice into a range of something that is not a local fixed-length array: %s"
+                     % (self.where, self.text(base)))
+            a = base[1][0]
+            L = self.static_len[a]
+            if src[0] == "sliceto" or self.ty(src) != BYTES:
+                fail("%s: copy_from_slice into `%s[..]` from an unsupported source" % (self.where, a))
+            sx = self.ex(src)
+            if not (hi[0] == "path" and len(hi[1]) == 1 and self.len_alias.get(hi[1][0]) == sx):
+                fail("%s: `%s[..%s].copy_from_slice(%s)`: the bound is not syntactically the length of the source"
+                     % (self.where, a, self.text(hi), self.text(src)))
+            n = hi[1][0]
+            if not any(f[0] == "lt" and f[1] == n and f[2] <= L for f in self.facts):
+                fail("%s: `%s[..%s]`: no enclosing `if %s < K` with K ≤ %d" % (self.where, a, n, n, L))
+            av = lean_ident(a)
+            return av, "(%s ++ (%s).drop %s)" % (self.atom(src), av, lean_ident(n))
+        if src[0] == "sliceto":
+            if not (tgt[0] == "path" and len(tgt[1]) == 1 and tgt[1][0] in self.static_len):
+                fail("%s: copy_from_slice of a range into something that is not a local fixed-length array: %s"
+                     % (self.where, self.text(tgt)))
+            a = tgt[1][0]
+            L = self.static_len[a]
+            base, hi = src[1], src[2]
+            if self.ty(base) != BYTES:
+                fail("%s: range index on something that is not known to be a byte sequence: %s"
+                     % (self.where, self.text(base)))
+            if not (hi[0] == "num" and hi[1] == L):
+                fail("%s: `%s.copy_from_slice(&%s[..%s])`: the range is not the length %d of the array"
+                     % (self.where, a, self.text(base), self.text(hi), L))
+            bx = self.ex(base)
+            if not any(f[0] == "ge" and self.len_alias.get(f[1]) == bx and f[2] >= L for f in self.facts):
+                fail("%s: `%s[..%d]`: not inside a branch where the length is known to be ≥ %d"
+                     % (self.where, self.text(base), L, L))
+            return lean_ident(a), "((%s).take %d)" % (bx, L)
+        if tgt[0] == "path" and len(tgt[1]) == 1:
+            self.static_len.pop(tgt[1][0], None)       # the new length is that of `src`, not known here
+        return self.var_name(tgt), self.ex(src)
 
     def var_name_text(self, t):
         if t in self.state_vars:
@@ -758,6 +953,11 @@ class Emit:
         if e[0] == "call" and (e[1][-1] in self.partial_fns):
             self.partial = True
             return "(%s %s)" % (self.partial_fns[e[1][-1]], " ".join(self.atom(a) for a in e[2]))
+        d = self.decode_unwrap(e)
+        if d is not None:
+            # `vu64::decode(X).unwrap()`: panics (none) when X is not a vu64
+            self.partial = True
+            return "((Abyss.Vu64.decode %s).map (·.1))" % d
         s = self.ex(e)
         return ("(some %s)" % s) if wrap else s
 
@@ -779,6 +979,28 @@ class Emit:
                 out += " | %s => %s" % (ctor, self.tailx(body, wrap))
         return out + ")"
 
+    def forget(self, v):
+        """a (re)declared or assigned variable: what was known about its former value is dropped"""
+        self.static_len.pop(v, None)
+        self.len_alias.pop(v, None)
+        self.facts = [f for f in self.facts if f[1] != v]
+        for n in [n for n, sx in self.len_alias.items() if mentions(sx, lean_ident(v))]:
+            del self.len_alias[n]
+
+    def known(self):
+        return (dict(self.static_len), dict(self.len_alias), list(self.facts))
+
+    def after_branches(self, before, states, assigned):
+        """what is still known after control flow joins: known before, unchanged in every branch,
+        and not about a variable that a branch assigns"""
+        for v in assigned:
+            self.forget(v)
+        out = []
+        for i in (0, 1):
+            out.append({v: x for v, x in before[i].items() if all(st[i].get(v) == x for st in states)})
+        self.static_len, self.len_alias = out
+        self.facts = [f for f in before[2] if f[1] not in assigned and all(f in st[2] for st in states)]
+
     def bind(self, pat):
         if pat[0] == "pvar":
             return lean_ident(pat[1])
@@ -798,8 +1020,28 @@ class Emit:
             txt = self.text(e)
             if txt in self.subst and self.subst[txt][0] is None:
                 return self.seq(rest, tail, wrap)              # configured to be dropped
+            d = self.decode_unwrap(e)
+            if d is not None:
+                # `let x: u64 = vu64::decode(X).unwrap();` panics (none) when X is not a vu64
+                if pat[0] != "pvar" or ty != "u64":
+                    fail("%s: `let … = vu64::decode(..).unwrap()` must bind one variable annotated `u64`" % self.where)
+                self.partial = True
+                self.forget(pat[1])
+                self.vt[pat[1]] = "u64"
+                return "match Abyss.Vu64.decode %s with\n  | none => none\n  | some (%s, _) =>\n  %s" % (
+                    d, lean_ident(pat[1]), self.seq(rest, tail, wrap))
             rhs = self.ex(e)
             t = (ty if ty in WIDTH else None) or self.ty(e)
+            alias = None
+            if e[0] == "mcall" and e[2] == "len" and not e[3] and not _mut and self.ty(e[1]) == BYTES:
+                alias = self.ex(e[1])                          # `let n = S.len()`
+            for v in pat_vars(pat):
+                self.forget(v)
+            if pat[0] == "pvar":
+                if e[0] == "repeat" and e[1] == ("num", 0) and e[2][0] == "num":
+                    self.static_len[pat[1]] = e[2][1]          # `let mut a = [0u8; N]`
+                if alias is not None and not mentions(alias, lean_ident(pat[1])):
+                    self.len_alias[pat[1]] = alias
             if t is None and e[0] == "num" and _mut:
                 t = self.default_int or None
             if pat[0] == "pvar" and t:
@@ -831,6 +1073,7 @@ class Emit:
                 new = self.ex(rhs)
             else:
                 new = self.ex(("bin", op[:-1], lhs, rhs))
+            self.forget(v)
             return "let %s := %s\n  %s" % (lean_ident(v), new, self.seq(rest, tail, wrap))
         if k == "expr":
             e = st[1]
@@ -841,8 +1084,8 @@ class Emit:
                 return self.seq(list(e[1]) + list(rest), tail, wrap)
             if e[0] == "mcall" and e[2] == "copy_from_slice" and len(e[3]) == 1:
                 # `x.copy_from_slice(src)` with equal lengths: x := src
-                tgt = self.var_name(e[1])
-                return "let %s := %s\n  %s" % (tgt, self.ex(e[3][0]), self.seq(rest, tail, wrap))
+                tgt, new = self.copy_from_slice(e[1], e[3][0])
+                return "let %s := %s\n  %s" % (tgt, new, self.seq(rest, tail, wrap))
             if e[0] == "if" and e[3] is not None and e[3][0] == "block" and e[2][2] is None and e[3][2] is None:
                 # statement `if c { … } else { … }` that only assigns outer variables
                 vs = assigned_vars(e[2][1] + e[3][1], self)
@@ -851,11 +1094,19 @@ class Emit:
                 names = [self.var_name_text(v) for v in vs]
                 tup = names[0] if len(names) == 1 else "(" + ", ".join(names) + ")"
                 saved = dict(self.vt)
+                known = self.known()
+                c = self.cond(e[1])
+                self.facts = known[2] + self.cond_facts(e[1], True)
                 a = self.seq(e[2][1], ("rawtail", tup), False)
+                ka = self.known()
                 self.vt = dict(saved)
+                self.static_len, self.len_alias = dict(known[0]), dict(known[1])
+                self.facts = known[2] + self.cond_facts(e[1], False)
                 b = self.seq(e[3][1], ("rawtail", tup), False)
+                kb = self.known()
                 self.vt = saved
-                return "let %s := if %s then (%s) else (%s)\n  %s" % (tup, self.cond(e[1]), a, b, self.seq(rest, tail, wrap))
+                self.after_branches(known, [ka, kb], [v for v in vs if v not in self.state_vars])
+                return "let %s := if %s then (%s) else (%s)\n  %s" % (tup, c, a, b, self.seq(rest, tail, wrap))
             if e[0] == "if" and e[3] is None:
                 then = e[2]
                 # `if c { return e; }` / `if c { panic!() }`
@@ -880,9 +1131,17 @@ class Emit:
             tup = names[0] if len(names) == 1 else "(" + ", ".join(names) + ")"
             if body[2] is not None:
                 fail(self.where + ": `for` body with a value")
+            itx = self.iter(it)
+            known = self.known()
+            for v in pat_vars(pat):
+                self.forget(v)
+            for v in vs:
+                if v not in self.state_vars:
+                    self.forget(v)                 # the body sees the result of any number of rounds
             inner = self.seq(body[1], ("rawtail", tup), False)
+            self.after_branches(known, [self.known()], [v for v in vs if v not in self.state_vars])
             return "let %s := (%s).foldl (fun %s %s =>\n    %s) %s\n  %s" % (
-                tup, self.iter(it), tup, self.bind(pat), inner, tup, self.seq(rest, tail, wrap))
+                tup, itx, tup, self.bind(pat), inner, tup, self.seq(rest, tail, wrap))
         if k == "for":
             _, pat, it, body = st
             # shape: for PAT in ITER { if COND { return E; } }
@@ -938,13 +1197,24 @@ def assigned_vars(stmts, emit):
                 elif e[0] == "block":
                     visit(e[1])
                 elif e[0] == "mcall" and e[2] == "copy_from_slice":
-                    t = emit.text(e[1])
+                    t = emit.text(e[1][1] if e[1][0] == "sliceto" else e[1])
                     if t not in declared and t not in out:
                         out.append(t)
             elif k == "for":
                 visit(st[3][1])
     visit(stmts)
     return out
+
+
+def pat_vars(pat):
+    if pat[0] == "pvar":
+        return [pat[1]]
+    return [v for p in pat[1] for v in pat_vars(p)]
+
+
+def mentions(lean_text, ident):
+    """does the Lean text contain the identifier as a whole word?"""
+    return re.search(r"(?<![A-Za-z0-9_.'])%s(?![A-Za-z0-9_'])" % re.escape(ident), lean_text) is not None
 
 
 def lean_ident(s):
@@ -978,10 +1248,26 @@ P.expr = _expr_with_range
 # ----------------------------------------------------------------------------- driver
 def translate_fn(repo, feats, relpath, rust_name, lean_name, params, subst, consts, partial_fns,
                  self_arrays=None, var_types=None, ret_tuple=None, pick_let=None, state_vars=None,
-                 pure_fns=None, default_int=None, result=None):
-    where = "%s::%s" % (relpath, rust_name)
+                 pure_fns=None, default_int=None, result=None, impl=None, expect_sig=None,
+                 force_option=False, newtypes=None):
+    """impl: look the function up inside the block `impl <impl> { … }` only.
+    expect_sig: the function's signature (text between its name and its body) must be this,
+    token for token — the parameter names and types of `params`/`var_types` are configuration,
+    this ties them to the source.
+    force_option: the Lean function returns `Option` even when no panic path was found.
+    newtypes: names of tuple-struct newtypes over `Vec<u8>` whose constructor is erased."""
+    where = "%s::%s" % (relpath, rust_name) if impl is None else "%s::<impl %s>::%s" % (relpath, impl, rust_name)
     src = strip_comments(open(os.path.join(repo, relpath)).read())
+    if impl is not None:
+        src = find_impl(src, impl, where)
+        n = len(re.findall(r"\bfn\s+%s\b" % re.escape(rust_name), src))
+        if n != 1:
+            fail("%s: %d definitions of fn %s in the impl block" % (where, n, rust_name))
     item = find_item(src, "fn", rust_name, where)
+    if expect_sig is not None:
+        got, want = fn_signature(item), [v for _k, v in tokenize(expect_sig)]
+        if got != want:
+            fail("%s: signature is `%s`, the translation is configured for `%s`" % (where, " ".join(got), " ".join(want)))
     toks = tokenize(item)
     if pick_let:
         # translate only the first `let <pick_let> = <expr>;` of the function whose cfg
@@ -1038,6 +1324,7 @@ def translate_fn(repo, feats, relpath, rust_name, lean_name, params, subst, cons
         x.state_vars = dict(state_vars or {})
         x.pure_fns = dict(pure_fns or {})
         x.default_int = default_int
+        x.newtypes = set(newtypes or ())
         for (pn, pt) in params:
             x.vt[pn] = pt
     if result is not None:
@@ -1046,7 +1333,7 @@ def translate_fn(repo, feats, relpath, rust_name, lean_name, params, subst, cons
     # first pass to learn whether the function is partial
     em2.seq(body[1], body[2], wrap=False)
     partial = em2.partial
-    term = em.seq(body[1], body[2], wrap=partial)
+    term = em.seq(body[1], body[2], wrap=partial or force_option)
     return partial, term, em.notes
 
 
@@ -1151,9 +1438,10 @@ def main():
     F = []
 
     def fn(lean, rel, rust, params, sig, **kw):
+        item = "`%s`" % rust if not kw.get("impl") else "`impl %s`, `fn %s`" % (kw["impl"], rust)
         partial, term, notes = translate_fn(repo, feats, rel, rust, lean, params, kw.pop("subst", {}),
                                             kw.pop("consts", {}), kw.pop("partial_fns", {}), **kw)
-        F.append((lean, sig, partial, term, "%s `%s`" % (rel, rust), notes))
+        F.append((lean, sig, partial, term, "%s %s" % (rel, item), notes))
         return partial
 
     fn("xorshift64s", L, "_xorshift64s", [("a", "u64")], "(a : Nat) : Nat")
@@ -1187,6 +1475,38 @@ def main():
     fn("htxInitLen", H, "open_with_params", [("buckets_size", "u64")], "(bucketsSize : Nat) : Nat",
        consts={"HTX_HEADER_SZ": "htxHeaderSz"}, pick_let="off")
 
+    # ---- key types: stored-key comparison and integer <-> key conversions
+    # (src/filedb/dbmap/kt_db*.rs; a key newtype `DbX(Vec<u8>)` is its byte list)
+    KT = "src/filedb/dbmap/"
+    for sfx, ty_ in (("String", "DbString"), ("Bytes", "DbBytes"), ("U64", "DbU64"), ("I64", "DbI64"),
+                     ("Vu64", "DbVu64")):
+        # `none` = the call panics (`vu64::decode(..).unwrap()`)
+        fn("cmpU8" + sfx, KT + "kt_%s.rs" % ty_.lower(), "cmp_u8", [("other", BYTES)],
+           "(mine other : List Nat) : Option Ordering", impl="DbMapKeyType for " + ty_,
+           expect_sig="(&self, other: &[u8]) -> std::cmp::Ordering", force_option=True,
+           subst={"self.0": ("mine", BYTES)})
+
+    def conv(lean, file_ty, impl, sig_rs, params, sig_lean, arg=None, **kw):
+        subst = {arg + ".0": ("k", BYTES)} if arg else {}
+        return fn(lean, KT + "kt_%s.rs" % file_ty.lower(), "from", params, sig_lean, impl=impl, expect_sig=sig_rs,
+                  subst=subst, newtypes=[file_ty], **kw)
+
+    conv("u64ToKey", "DbU64", "From<u64> for DbU64", "(a: u64) -> Self", [("a", "u64")], "(a : Nat) : List Nat")
+    conv("i64ToKey", "DbI64", "From<i64> for DbI64", "(a: i64) -> Self", [("a", "i64")], "(a : Int) : List Nat")
+    conv("vu64ToKey", "DbVu64", "From<u64> for DbVu64", "(a: u64) -> Self", [("a", "u64")], "(a : Nat) : List Nat")
+    conv("bytesKeyOfU64", "DbBytes", "From<u64> for DbBytes", "(a: u64) -> Self", [("a", "u64")],
+         "(a : Nat) : List Nat")
+    conv("stringKeyOfU64", "DbString", "From<u64> for DbString", "(a: u64) -> Self", [("a", "u64")],
+         "(a : Nat) : List Nat")
+    conv("keyToU64", "DbU64", "From<&DbU64> for u64", "(db_int: &DbU64) -> u64", [], "(k : List Nat) : Nat",
+         arg="db_int")
+    conv("keyToI64", "DbI64", "From<&DbI64> for i64", "(db_int: &DbI64) -> i64", [], "(k : List Nat) : Int",
+         arg="db_int")
+    part = conv("keyToVu64", "DbVu64", "From<&DbVu64> for u64", "(db_int: &DbVu64) -> u64", [],
+                "(k : List Nat) : Option Nat", arg="db_int")
+    if not part:
+        fail(KT + "kt_dbvu64.rs::<impl From<&DbVu64> for u64>::from: expected a panic path (`unwrap`)")
+
     with open(os.path.join(out, "Funcs.lean"), "w") as fh:
         fh.write("import Abyss.Vu64\nimport Abyss.Gen.Consts\n")
         fh.write("/-! GENERATED by tools/rs2lean.py from /repo — do not edit. Pure functions. -/\n")
@@ -1196,6 +1516,14 @@ def main():
         fh.write("/-- `slice.chunks(k)`: consecutive pieces of `k` elements, the last one may be shorter -/\n")
         fh.write("def chunksOf (k : Nat) (l : List Nat) : List (List Nat) :=\n  (List.range ((l.length + k - 1) / k)).map fun i => (l.drop (i * k)).take k\n\n")
         fh.write("/-- `u64::from_be_bytes` -/\ndef beVal (bs : List Nat) : Nat := bs.foldl (fun a b => a * 256 + b) 0\n\n")
+        fh.write("/-- `<[u8] as Ord>::cmp`: lexicographic order of byte slices -/\n")
+        fh.write("def cmpBytes : List Nat → List Nat → Ordering\n  | [], [] => .eq\n  | [], _ :: _ => .lt\n"
+                 "  | _ :: _, [] => .gt\n"
+                 "  | x :: xs, y :: ys => if x < y then .lt else if x > y then .gt else cmpBytes xs ys\n\n")
+        fh.write("/-- `uN::to_be_bytes`: `k` big-endian bytes of `v` -/\n")
+        fh.write("def beBytes (v k : Nat) : List Nat := (Abyss.Vu64.leBytes v k).reverse\n\n")
+        fh.write("/-- the `i64` with the 64-bit two's complement pattern `u` (`u < 2^64`) -/\n")
+        fh.write("def toI64 (u : Nat) : Int := if u < 2^63 then (u : Int) else (u : Int) - 2^64\n\n")
         fh.write("/-- src/filedb/mod.rs `HashBucketsParam` -/\n")
         fh.write("inductive HashBucketsParam where\n  | bucketsSize (x : Nat)\n  | capacity (x : Nat)\n  | default\n  deriving Repr, DecidableEq\n\n")
         for lean, sig, partial, term, src, notes in F:
@@ -1210,4 +1538,11 @@ if __name__ == "__main__":
         main()
     except TrError as e:
         print("rs2lean: UNSUPPORTED: %s" % e, file=sys.stderr)
+        # nothing was emitted; a Funcs.lean left over from an earlier run must not be mistaken for
+        # the translation of this source: replace it by a file that fails to build with the reason
+        if len(sys.argv) > 2 and os.path.isdir(sys.argv[2]):
+            msg = ("rs2lean: UNSUPPORTED: %s" % e).replace("\\", "\\\\").replace('"', '\\"').replace("\n", " ")
+            with open(os.path.join(sys.argv[2], "Funcs.lean"), "w") as fh:
+                fh.write("/-! GENERATED by tools/rs2lean.py — the translation FAILED, nothing was emitted. -/\n")
+                fh.write('#eval (throw (IO.userError "%s") : IO Unit)\n' % msg)
         sys.exit(2)
